@@ -37,7 +37,7 @@ theorem canonIntervals_list (n : Int) (x : Option (List Interval)) (h : canonInt
 
 /-- **middle section**: residues, their modifications and the intervals written by
 `_serialize_annotation_middle` are read back by `_parse_sequence_middle` -/
-theorem parseMiddle_serializeMiddle' (plus : Bool) (a acc : Annotation) (hs : a.seq.all isAA = true)
+theorem parseMiddle_serializeMiddle' (plus : Plus) (a acc : Annotation) (hs : a.seq.all isAA = true)
     (hD : canonInternal (Int.ofNat a.seq.length) a.internal = true)
     (hL : canonIntervals (Int.ofNat a.seq.length) a.intervals = true)
     (h1 : acc.seq = []) (h2 : acc.internal = none) (h3 : acc.intervals = none)
@@ -52,7 +52,7 @@ theorem parseMiddle_serializeMiddle' (plus : Bool) (a acc : Annotation) (hs : a.
   rw [this, optL_of_canonInternal _ _ hD, optL_of_canonIntervals _ _ hL]
 
 /-- the middle section of a canonical chain starts with a residue or `(` -/
-theorem startStop_middle (plus : Bool) (a : Annotation) (hne : a.seq ≠ []) (hs : a.seq.all isAA = true)
+theorem startStop_middle (plus : Plus) (a : Annotation) (hne : a.seq ≠ []) (hs : a.seq.all isAA = true)
     (hL : canonIntervals (Int.ofNat a.seq.length) a.intervals = true) (tail : List Char) :
     StartStop (serializeMiddle plus a ++ tail) := by
   unfold serializeMiddle
@@ -74,17 +74,17 @@ theorem startStop_middle (plus : Bool) (a : Annotation) (hne : a.seq ≠ []) (hs
       · exact ⟨c, _, rfl, Or.inl hs.1⟩
 
 /-- text of the end section split into the C-terminal part (read by the middle phase) and the charge part -/
-def ctermText (plus : Bool) : Option (List Mod) → List Char
+def ctermText (plus : Plus) : Option (List Mod) → List Char
   | none => []
   | some [] => []
   | some l => '-' :: serializeMods '[' ']' plus l
 
-def chargeText (plus : Bool) (ch : Option Int) (ad : Option (List Mod)) : List Char :=
+def chargeText (plus : Plus) (ch : Option Int) (ad : Option (List Mod)) : List Char :=
   (match ch with
    | none => []
    | some c => if c = 0 then [] else '/' :: intText c) ++ optMods '[' ']' plus ad
 
-theorem serializeEnd_eq (plus : Bool) (a : Annotation) :
+theorem serializeEnd_eq (plus : Plus) (a : Annotation) :
     serializeEnd plus a = ctermText plus a.cterm ++ chargeText plus a.charge a.adducts := by
   unfold serializeEnd ctermText chargeText
   cases a.cterm with
@@ -92,13 +92,13 @@ theorem serializeEnd_eq (plus : Bool) (a : Annotation) :
   | some l => cases l <;> simp <;> cases a.charge <;> rfl
 
 
-theorem ctermText_some (plus : Bool) (l : List Mod) (h : l ≠ []) :
+theorem ctermText_some (plus : Plus) (l : List Mod) (h : l ≠ []) :
     ctermText plus (some l) = '-' :: serializeMods '[' ']' plus l := by
   cases l with
   | nil => exact absurd rfl h
   | cons m t => rfl
 
-theorem serializeMiddle_ne_nil (plus : Bool) (a : Annotation) (hne : a.seq ≠ []) : serializeMiddle plus a ≠ [] := by
+theorem serializeMiddle_ne_nil (plus : Plus) (a : Annotation) (hne : a.seq ≠ []) : serializeMiddle plus a ≠ [] := by
   unfold serializeMiddle
   cases hq : a.seq with
   | nil => exact absurd hq hne
@@ -111,7 +111,7 @@ theorem Annotation.ext11 (a b : Annotation) (h1 : a.seq = b.seq) (h2 : a.isotope
   cases a; cases b; simp_all
 
 /-- the three phases on one canonical chain followed by the end of the input or by `+ next chain` -/
-theorem phases_chain (plus : Bool) (a : Annotation) (hc : canon a = true) (conn : Option Bool) (rest : List Char)
+theorem phases_chain (plus : Plus) (a : Annotation) (hc : canon a = true) (conn : Option Bool) (rest : List Char)
     (hrest : ChainStop rest) :
     ∃ a1 r1 a2 r2,
       parseStart true { seq := [] } (serialize plus a ++ rest) = .ok (a1, r1) ∧
@@ -211,7 +211,7 @@ theorem phases_chain (plus : Bool) (a : Annotation) (hc : canon a = true) (conn 
       congr 2
       exact Annotation.ext11 _ _ rfl rfl rfl rfl rfl rfl rfl rfl rfl hcq.symm rfl
 
-theorem serialize_ne_nil (plus : Bool) (a : Annotation) (hne : a.seq ≠ []) : serialize plus a ≠ [] := by
+theorem serialize_ne_nil (plus : Plus) (a : Annotation) (hne : a.seq ≠ []) : serialize plus a ≠ [] := by
   unfold serialize
   intro h
   have := serializeMiddle_ne_nil plus a hne
@@ -219,7 +219,7 @@ theorem serialize_ne_nil (plus : Bool) (a : Annotation) (hne : a.seq ≠ []) : s
   exact this h.2.1
 
 /-- one iteration of the chain loop on a canonical chain -/
-theorem parseChains_chain (plus : Bool) (a : Annotation) (hc : canon a = true) (conn : Option Bool) (rest : List Char)
+theorem parseChains_chain (plus : Plus) (a : Annotation) (hc : canon a = true) (conn : Option Bool) (rest : List Char)
     (hrest : ChainStop rest) :
     parseChains true conn (serialize plus a ++ rest) =
       match parseChains true (stopConn conn rest) (stopRest rest) with
@@ -275,7 +275,7 @@ theorem parseChains_allAA (conn : Option Bool) (s : List Char) (hs : s.all isAA 
 /-! ### several chains joined by `+` -/
 
 /-- `MultiProFormaAnnotation.serialize` when every connection is `False` -/
-def chainsText (plus : Bool) : List Annotation → List Char
+def chainsText (plus : Plus) : List Annotation → List Char
   | [] => []
   | [a] => serialize plus a
   | a :: b :: t => serialize plus a ++ '+' :: chainsText plus (b :: t)
@@ -286,7 +286,7 @@ def chainsResult (conn : Option Bool) : List Annotation → List (Annotation × 
   | [a] => [(a, conn)]
   | a :: b :: t => (a, some false) :: chainsResult (some false) (b :: t)
 
-theorem parseChains_chainsText (plus : Bool) (as : List Annotation) (hne : as ≠ []) (hc : as.all canon = true)
+theorem parseChains_chainsText (plus : Plus) (as : List Annotation) (hne : as ≠ []) (hc : as.all canon = true)
     (conn : Option Bool) : parseChains true conn (chainsText plus as) = .ok (chainsResult conn as) := by
   induction as generalizing conn with
   | nil => exact absurd rfl hne
@@ -330,7 +330,7 @@ theorem chainsResult_snd (conn : Option Bool) (as : List Annotation) :
         rw [this]
         simp [List.replicate_succ]
 
-theorem serializeMulti_plus (plus : Bool) (as : List Annotation) :
+theorem serializeMulti_plus (plus : Plus) (as : List Annotation) :
     serializeMulti plus as (List.replicate (as.length - 1) (some false)) = .ok (chainsText plus as) := by
   induction as with
   | nil => rfl
@@ -342,7 +342,7 @@ theorem serializeMulti_plus (plus : Bool) (as : List Annotation) :
       rw [List.replicate_succ, serializeMulti, ih]
       simp [chainsText]
 
-theorem chainsText_not_unmodified (plus : Bool) (a b : Annotation) (t : List Annotation) :
+theorem chainsText_not_unmodified (plus : Plus) (a b : Annotation) (t : List Annotation) :
     isUnmodified (chainsText plus (a :: b :: t)) = false := by
   simp only [chainsText, isUnmodified, List.all_append, List.all_cons]
   have : isAA '+' = false := by decide
@@ -353,7 +353,7 @@ theorem chainsText_not_unmodified (plus : Bool) (a b : Annotation) (t : List Ann
 def joiner (x : Bool) : List Char := if x then ['/', '/'] else ['+']
 
 /-- chains written with `+` for a `False` connection and `//` for a `True` connection (what the parser reads) -/
-def joinedText (plus : Bool) : List Annotation → List Bool → List Char
+def joinedText (plus : Plus) : List Annotation → List Bool → List Char
   | [], _ => []
   | [a], _ => serialize plus a
   | a :: b :: t, [] => serialize plus a ++ joiner false ++ joinedText plus (b :: t) []
@@ -375,7 +375,7 @@ theorem joiner_stop (conn : Option Bool) (x : Bool) (r : List Char) :
     stopConn conn (joiner x ++ r) = some x ∧ stopRest (joiner x ++ r) = r := by
   cases x <;> simp [joiner, stopConn, stopRest]
 
-theorem parseChains_joined (plus : Bool) (as : List Annotation) (hne : as ≠ []) (hc : as.all canon = true)
+theorem parseChains_joined (plus : Plus) (as : List Annotation) (hne : as ≠ []) (hc : as.all canon = true)
     (flags : List Bool) (conn : Option Bool) :
     parseChains true conn (joinedText plus as flags) = .ok (joinedResult conn as flags) := by
   induction as generalizing conn flags with
@@ -440,7 +440,7 @@ theorem joinedResult_snd (conn : Option Bool) (as : List Annotation) (flags : Li
           simp only [List.map_cons, List.dropLast_cons_cons] at this ⊢
           rw [this]
 
-theorem joinedText_not_unmodified (plus : Bool) (a b : Annotation) (t : List Annotation) (flags : List Bool) :
+theorem joinedText_not_unmodified (plus : Plus) (a b : Annotation) (t : List Annotation) (flags : List Bool) :
     isUnmodified (joinedText plus (a :: b :: t) flags) = false := by
   have h1 : isAA '+' = false := by decide
   have h2 : isAA '/' = false := by decide
